@@ -1,9 +1,10 @@
 SPECIFICATION Spec
 CONSTANTS
-  NRand = 120
+  NRand = 40
   WsCount = 8
   PreLayouts = 2
-  NRandS = 60
+  FullStyles = TRUE
+  NRandS = 40
 INVARIANTS
   Inv_Layout
   Inv_Norm
